@@ -78,11 +78,17 @@ def programs(tier, seed):
         if t not in seen:
             seen.add(t)
             out.append(p)
-    if tier != 'thorough':
-        rnd = random.Random(seed)
-        depth2 = out[len(roots) + 4 * len(atoms()):]
-        keep = out[:len(roots) + 4 * len(atoms())] + rnd.sample(depth2, min(len(depth2), 700))
-        out = keep
+    # depth 3 (operator chains only: unary / binary / conditional), a seeded sample; the quick tier takes fewer
+    rnd = random.Random(seed)
+    ops = [lambda x, y, z, op=op: ('un', op, x) for op in M.UN_OPS] + [lambda x, y, z, op=op: ('bin', op, x, y) for op in M.BIN_OPS] + \
+          [lambda x, y, z, op=op: ('bin', op, y, x) for op in M.BIN_OPS] + [lambda x, y, z: ('cond', x, y, z), lambda x, y, z: ('cond', y, x, z), lambda x, y, z: ('cond', y, z, x)]
+    for _ in range(1500 if tier == 'thorough' else 200):
+        f1, f2, f3 = rnd.choice(ops), rnd.choice(ops), rnd.choice(ops)
+        e = f1(f2(f3(a, b, c), d, a), b, c)
+        t = M.pr(e)
+        if t not in seen:
+            seen.add(t)
+            out.append(e)
     return out
 
 
@@ -185,7 +191,7 @@ def main(tier):
                          'explanation': 'per program the solver decides generated value == reference value for ALL data (operators uninterpreted, null-safety / truthiness / ?: && || ?? interpreted)'})
     res.bounds = {'grammar': 'every expression form x every form as child in every operand position (depth 2), leaves = data fields and boundary literals',
                   'spellings': 'minimal parentheses for all, full parentheses for %s' % ('all' if tier == 'thorough' else 'a seeded third'),
-                  'quick_tier': 'seeded sample of 700 depth-2 expressions'}
+                  'depth_3': 'seeded sample of operator chains (200 quick / 1500 thorough)'}
     res.assumptions = ['reference conventions = the statement of C03 (free identifier = data field, null-safe member read, non-function callee -> undefined, plain call)',
                        'the JavaScript operators themselves are uninterpreted (they are JavaScript\'s, not the compiler\'s)',
                        'array spread of non-array iterables and numeric results of operators are outside',
